@@ -551,6 +551,19 @@ Definition repeat_iq_vals (rep pb : seq nat) (t : nat) (d : seq F) : seq (seq F)
                                                    + repeat_rf rep pb of_)) t)
         (prodn (repeat_obs rep pb)).
 
+(* LinearOperator.expand / _expand_batch on a leaf batch (rep_i = expanded size / base size, pb = base batch shape left-padded
+   with 1s): member o of the expanded batch is base member (o mod base batch shape) - the broadcasting of Tensor.expand.
+   What happens to the member's ATTRIBUTES is per class:
+     CholLinearOperator._expand_batch:  self.__class__(self.root._expand_batch(batch_shape), upper=self.upper)   - keeps upper
+     RootLinearOperator._expand_batch:  self.__class__(self.root._expand_batch(batch_shape))                     - what a Chol
+        operator WITHOUT the override would inherit: the keyword falls back to upper=False while the root stays upper *)
+Definition expand_members (rep pb : seq nat) (ms : seq op) : seq op :=
+  mkseq (fun o => nth (Ident 0) ms (repeat_bf rep pb o)) (prodn (repeat_obs rep pb)).
+Definition chol_expand_batch (rep pb : seq nat) (ms : seq op) : seq op :=
+  [seq (if o is Chol up n T then Chol up n T else o) | o <- expand_members rep pb ms].
+Definition root_expand_batch (rep pb : seq nat) (ms : seq op) : seq op :=
+  [seq (if o is Chol up n T then Chol false n T else o) | o <- expand_members rep pb ms].
+
 (* Block wrappers: _add_batch_dim on the rhs (member g -> members g*k .. g*k+k-1) and the sum over the block dimension *)
 Definition block_rhs (il : bool) (k m : nat) (Rs : seq cols) : seq cols :=
   flatten [seq mkseq (fun i => [seq (if il then rows_inter else rows_block) k m i r | r <- Rb]) k | Rb <- Rs].
